@@ -21,6 +21,10 @@
 // absent relations with lower and higher IDs, in both source orders, through
 // the in-memory and the PBF source, observed in the world and on the first
 // Read of a fresh feature source.
+//
+// A fourth part (reskeys.go) gives nodes, open ways, closed ways, multipolygon
+// and plain relations OSM tags whose keys are the keys b6 reserves for itself
+// (point, path, expression, b6:colour).
 package main
 
 import (
@@ -63,12 +67,13 @@ func main() {
 	nq := wk.NamedQueries(qs)
 	kit.Main(&kit.Check{
 		ID: "C29", Level: "exploration",
-		Rule: "every choice of one variant per slot of osmkit.Menu (n2 plain/searchable tag/missing/plain tag; n1, n8 tagged or not; way A closed ccw/cw, open, degenerate, absent; way B joining, inner ring ccw/cw, missing node, open; way C; multipolygon relation M with outer/inner/empty roles, node and missing members; plain relations P and Q over nodes, open ways, closed ways, M, P and missing elements) x ID scheme (way and relation numbers overlapping / disjoint / > 2^32). Non-trivial = at least one way or relation; distinct by the literal input. Oracle: osmkit.Expect (independent coding of the statement's rules and of the documented searchable-key table) -> worldkit reference dump: existence, tags with kinds, E7 points, path references in order, polygons as vertex loops with their path IDs, relation members and roles, referrers, relations/areas by feature, tag searches, EachFeature. Second part, multipolygon member sequences: over a fixed input (nodes n1..n11, closed counter-clockwise ways A=1 square, B=2 triangle inside A, C=3 triangle beside A, plain relation 2) the members of multipolygon relation 1 are every sequence over the member alphabet {way 1,2,3} x role {outer, \"\", inner} (each way at most once) + {node n1, relation 2 [thorough: also an absent node and an absent relation]} x role {\"\", outer, inner, label} (repetition allowed) within the stated numbers of way and non-way members, so non-way members of both types and all four roles occur at every position (before the first ring, between an outer ring and its inner rings, between polygons, after the last ring, adjacent to each other); under the overlap ID scheme node 1 / relation 2 carry the numbers of ways A / B. Ordered by sequence length, then number of non-way members. Non-trivial = the rules define the area (all way members closed and present, first ring not inner); distinct by the literal input. Oracle for the area: a way member with role outer or no role opens a polygon, an inner way member adds a loop to the polygon of the preceding outer, members that are not ways have no influence on the polygons whatever their role and position (osmkit.Expect skips them before looking at the role); all other observations as in the first part. Third part, relation-typed members: over the same nodes and closed ways, each relation number 1..3 is absent / a multipolygon over the closed way of its number / a plain relation with an ordered sequence of distinct relation-typed members from {the two other numbers, absent relation 88} (roles sub, \"\", outer by position), all acyclic combinations, so plain relations reference multipolygon, plain and absent relations with lower and with higher IDs; the present relations are supplied in ascending and descending [thorough: every] source order, so every reference occurs with its target read earlier and later; each input goes through ingest.MemoryOSMSource and through PBF bytes (osm.NewWriter, read back with osm.ReadPBFWithOptions), Cores/Goroutines = 1. Ordered by number of relations, then members. Non-trivial = some plain relation has a relation-typed member; distinct by source kind + literal input. Oracle: a relation-typed member points at the AREA of the referenced relation iff that relation is in the input and is a multipolygon, otherwise at a relation with that number, whatever the IDs and the source order (osmkit.Expect looks the target up in the whole input); observed (a) in the world (built by the single first Read of a fresh NewFeatureSourceFromPBF source) as in the first part and (b) directly on the RelationFeatures emitted by the FIRST Read of another fresh source: each non-multipolygon relation emitted exactly once with exactly the demanded member IDs and roles, no relation feature for a multipolygon.",
+		Rule: "every choice of one variant per slot of osmkit.Menu (n2 plain/searchable tag/missing/plain tag; n1, n8 tagged or not; way A closed ccw/cw, open, degenerate, absent; way B joining, inner ring ccw/cw, missing node, open; way C; multipolygon relation M with outer/inner/empty roles, node and missing members; plain relations P and Q over nodes, open ways, closed ways, M, P and missing elements) x ID scheme (way and relation numbers overlapping / disjoint / > 2^32). Non-trivial = at least one way or relation; distinct by the literal input. Oracle: osmkit.Expect (independent coding of the statement's rules and of the documented searchable-key table) -> worldkit reference dump: existence, tags with kinds, E7 points, path references in order, polygons as vertex loops with their path IDs, relation members and roles, referrers, relations/areas by feature, tag searches, EachFeature. Second part, multipolygon member sequences: over a fixed input (nodes n1..n11, closed counter-clockwise ways A=1 square, B=2 triangle inside A, C=3 triangle beside A, plain relation 2) the members of multipolygon relation 1 are every sequence over the member alphabet {way 1,2,3} x role {outer, \"\", inner} (each way at most once) + {node n1, relation 2 [thorough: also an absent node and an absent relation]} x role {\"\", outer, inner, label} (repetition allowed) within the stated numbers of way and non-way members, so non-way members of both types and all four roles occur at every position (before the first ring, between an outer ring and its inner rings, between polygons, after the last ring, adjacent to each other); under the overlap ID scheme node 1 / relation 2 carry the numbers of ways A / B. Ordered by sequence length, then number of non-way members. Non-trivial = the rules define the area (all way members closed and present, first ring not inner); distinct by the literal input. Oracle for the area: a way member with role outer or no role opens a polygon, an inner way member adds a loop to the polygon of the preceding outer, members that are not ways have no influence on the polygons whatever their role and position (osmkit.Expect skips them before looking at the role); all other observations as in the first part. Third part, relation-typed members: over the same nodes and closed ways, each relation number 1..3 is absent / a multipolygon over the closed way of its number / a plain relation with an ordered sequence of distinct relation-typed members from {the two other numbers, absent relation 88} (roles sub, \"\", outer by position), all acyclic combinations, so plain relations reference multipolygon, plain and absent relations with lower and with higher IDs; the present relations are supplied in ascending and descending [thorough: every] source order, so every reference occurs with its target read earlier and later; each input goes through ingest.MemoryOSMSource and through PBF bytes (osm.NewWriter, read back with osm.ReadPBFWithOptions), Cores/Goroutines = 1. Ordered by number of relations, then members. Non-trivial = some plain relation has a relation-typed member; distinct by source kind + literal input. Oracle: a relation-typed member points at the AREA of the referenced relation iff that relation is in the input and is a multipolygon, otherwise at a relation with that number, whatever the IDs and the source order (osmkit.Expect looks the target up in the whole input); observed (a) in the world (built by the single first Read of a fresh NewFeatureSourceFromPBF source) as in the first part and (b) directly on the RelationFeatures emitted by the FIRST Read of another fresh source: each non-multipolygon relation emitted exactly once with exactly the demanded member IDs and roles, no relation feature for a multipolygon. Fourth part, OSM tags keyed like the tags b6 reserves (b6.PointTag point, b6.PathTag path, b6.ExpressionTag expression, b6.ColourTag b6:colour): over nodes n1..n11, open way 1 = n1 n2 n3, closed way 3, multipolygon relation 1 [way 3 outer] and plain relation 2 [n8, way 1, way 3, relation 1] (overlap IDs), each of the five elements node n1 / open way / closed way / multipolygon / plain relation carries either its ordinary tag list [a searchable key, a key outside the table] or a tag with one of the four reserved keys and a string value (yes [thorough: also a lat,lng-looking string]) alone, first or last [thorough: also in the middle] in that list; every assignment with at most 2 [thorough: any number] of elements carrying a reserved key; inputs with <= 1 such element also through PBF bytes. Ordered by number of elements carrying a reserved key. Non-trivial = some element carries one; distinct by source kind + literal input. Oracle: the rules of the first part unchanged (node -> point at its location, way -> path over its nodes in order, closed way -> area with the way's tags and a tagless path, multipolygon -> area, other relation -> relation over what its members became, tags kept with the documented key mapping) whatever the tags are keyed; violations are named by the element whose feature is wrong and the reserved key that element carries.",
 		Assumptions: []string{
 			"features the build is documented to delete as invalid (BuildOptions.FailInvalidFeatures=false: paths with a missing node or < 2 points, invalid loops, areas over them) are expected absent; clockwise closed ways are expected inverted (BuildOptions.FailClockwisePaths=false); both coded independently in worldkit.ValidSubset",
 			"a multipolygon relation whose way members are not all present closed ways (or that starts with an inner ring) is outside the rules: nothing is demanded of its area and differences naming that area are ignored",
 			"relation membership is acyclic in the menu (cycles belong to C15)",
 			"polygon loops compared up to rotation at E7 precision; tag order within a feature is not compared",
+			"the statement does not settle what becomes of an OSM tag keyed point or path on an element that becomes a point or a path (features that keep their geometry under those keys of their tag list): that tag's presence, the Get/AllTags disagreement a doubled key causes, and (when it is the feature's only tag) the feature's presence in search results are not judged; the feature's geometry, references and every other tag are",
 		},
 		QuickDeadline: 300e9, ThoroughDeadline: 40 * 60e9, Chunk: 64,
 		WorkerEnv: []string{"GOGC=800", "GOMAXPROCS=2"},
@@ -77,7 +82,15 @@ func main() {
 			menuN := ok.Total(blocks)
 			mp := newMPSpace(tier)
 			rr := newRRSpace(tier)
-			return kit.FuncSpace{N: menuN + mp.Len() + rr.Len(), F: func(i int64) kit.Result {
+			rk := newRKSpace(tier)
+			return kit.FuncSpace{N: menuN + mp.Len() + rr.Len() + rk.Len(), F: func(i int64) kit.Result {
+				if i >= menuN+mp.Len()+rr.Len() {
+					// OSM tags keyed like b6's reserved tags (reskeys.go)
+					j := i - menuN - mp.Len() - rr.Len()
+					c := rk.cases[j]
+					ev := evaluation{in: c.Input(), ids: ok.Schemes[0].Name, desc: c.Describe(), sample: j%499 == 0, viaPBF: c.pbf, rk: &c}
+					return ev.run(qs, nq)
+				}
 				if i >= menuN+mp.Len() {
 					// relation-typed members of plain relations (relref.go)
 					j := i - menuN - mp.Len()
@@ -96,7 +109,7 @@ func main() {
 				sch := blk.Scheme
 				ev := evaluation{in: ok.Expand(slots, choice, sch), ids: sch.Name, desc: ok.ChoiceNames(slots, choice), sample: i%1009 == 0, viaPBF: blk.ViaPBF}
 				return ev.run(qs, nq)
-			}}, fmt.Sprintf("(1) menu inputs of <= 11 nodes, <= 3 ways, <= 3 relations (slots n2, n1+n8, wayA, wayB, wayC, relM, relP, relQ): %s; (2) multipolygon member sequences (nodes n1..n11, closed ways A=1, B=2 inside A, C=3 beside A, multipolygon relation 1, plain relation 2): every sequence, in every interleaving, of distinct way members {1,2,3} x role {outer,\"\",inner} and non-way members {node, relation} x role {\"\",outer,inner,label} (repetition allowed): %s; (3) relation graphs over relation numbers 1..3 (same nodes and closed ways; each number absent / multipolygon over the way of its number / plain with an ordered sequence of distinct relation-typed members from {the two other numbers, absent relation 88}, references among plain relations acyclic), every distinct source order of the present relations within the stated orders, each through ingest.MemoryOSMSource and through PBF bytes (osm.NewWriter -> osm.ReadPBFWithOptions): %s; %d tag queries each", ok.BlocksString(blocks), mp.String(), rr.String(), len(qs))
+			}}, fmt.Sprintf("(1) menu inputs of <= 11 nodes, <= 3 ways, <= 3 relations (slots n2, n1+n8, wayA, wayB, wayC, relM, relP, relQ): %s; (2) multipolygon member sequences (nodes n1..n11, closed ways A=1, B=2 inside A, C=3 beside A, multipolygon relation 1, plain relation 2): every sequence, in every interleaving, of distinct way members {1,2,3} x role {outer,\"\",inner} and non-way members {node, relation} x role {\"\",outer,inner,label} (repetition allowed): %s; (3) relation graphs over relation numbers 1..3 (same nodes and closed ways; each number absent / multipolygon over the way of its number / plain with an ordered sequence of distinct relation-typed members from {the two other numbers, absent relation 88}, references among plain relations acyclic), every distinct source order of the present relations within the stated orders, each through ingest.MemoryOSMSource and through PBF bytes (osm.NewWriter -> osm.ReadPBFWithOptions): %s; (4) OSM tags keyed like b6's reserved tags, over node n1, open way 1 (n1 n2 n3), closed way 3, multipolygon relation 1 [way 3 outer], plain relation 2 [n8, way 1, way 3, relation 1] (overlap IDs): each element carries either its ordinary tags [mapped, unmapped] or a tag with a reserved key and a string value, alone / first / last [/ middle] in its tag list: %s; %d tag queries each", ok.BlocksString(blocks), mp.String(), rr.String(), rk.String(), len(qs))
 		},
 	})
 }
@@ -110,6 +123,7 @@ type evaluation struct {
 	viaPBF bool
 	mp     *mpCase // non-nil: a multipolygon member-sequence case
 	rr     *rrCase // non-nil: a relation-graph case
+	rk     *rkCase // non-nil: a reserved-key tags case
 }
 
 func (ev *evaluation) run(qs []wk.RQ, nq []wk.NamedQuery) kit.Result {
@@ -145,8 +159,19 @@ func (ev *evaluation) run(qs []wk.RQ, nq []wk.NamedQuery) kit.Result {
 		r.Outcome = "build-error"
 		return r
 	}
+	var unjudged map[b6.FeatureID][]wk.TagSpec
+	var bare map[string]bool
+	if ev.rk != nil {
+		unjudged, bare = rkUnjudged(&e)
+	}
 	got := wk.DumpWorld(w, &wk.DumpOptions{IDs: e.Universe, Queries: nq, Skip: []string{"trav:", "colls:"}})
+	if ev.rk != nil {
+		rkNormalise(got, unjudged, bare)
+	}
 	want := wk.NewRef(e.Valid).ExpectedDump(e.Universe, qs, true, true)
+	if ev.rk != nil {
+		rkNormalise(want, unjudged, bare)
+	}
 	diffs := wk.Diff(got, want, false)
 	// Nothing is demanded of an unconstrained multipolygon area. When the
 	// world does not have it the expected world (without it) is exact;
@@ -175,6 +200,22 @@ func (ev *evaluation) run(qs []wk.RQ, nq []wk.NamedQuery) kit.Result {
 		if c.Between > 0 && r.Nontrivial {
 			r.Count("mp-constrained-sequences-with-a-non-way-member-between-a-polygon's-rings", 1)
 		}
+	}
+	if c := ev.rk; c != nil {
+		kind := "memory"
+		if ev.viaPBF {
+			kind = "pbf"
+		}
+		r.Key = kind + " " + r.Key
+		r.Nontrivial = c.carried > 0
+		r.Outcome = fmt.Sprintf("reserved-keys-ok:%d-elements-carry-one,%d-dropped", c.carried, len(e.Dropped))
+		r.Count("reserved-key-inputs["+kind+"]", 1)
+		for i, el := range rkElements {
+			if k := c.choices[i].Key; k != "" {
+				r.Count("reserved-key-inputs-with:"+el+":"+k, 1)
+			}
+		}
+		r.Count("reserved-key-inputs-unjudged-tags", int64(len(unjudged)))
 	}
 	if c := ev.rr; c != nil {
 		kind := "memory"
@@ -225,6 +266,29 @@ func (ev *evaluation) run(qs []wk.RQ, nq []wk.NamedQuery) kit.Result {
 			}
 			if len(root) > 0 {
 				names = root
+			}
+		}
+		if ev.rk != nil {
+			// a wrong feature of one of the varied elements is the root cause; name
+			// it by that element's own tag choice and leave the differences that
+			// follow from it (references, searches, iteration) out of the classes
+			seen := map[string]bool{}
+			var root []string
+			for _, d := range diffs {
+				if rc := ev.rk.rkRootClass(d); rc != "" {
+					if n := rc + ":" + classify(d, got, want); !seen[n] {
+						seen[n] = true
+						root = append(root, n)
+					}
+				}
+			}
+			sort.Strings(root)
+			if len(root) > 0 {
+				names = root
+			} else {
+				for i, n := range names {
+					names[i] = "reserved-key-tags(" + ev.rk.InputClass() + "):" + n
+				}
 			}
 		}
 		for _, c := range names {
